@@ -2,6 +2,7 @@
 recording replacement of the `numpy.random` entry points the simulators use, independent reference
 calculations of conditional states and Born probabilities (own formulas in NumPy, no SF code), and generators."""
 import contextlib
+import copy
 import itertools
 import math
 from fractions import Fraction
@@ -94,9 +95,11 @@ class ScriptRNG:
       multinomial: callable(pvals) -> index     (default: the most probable bin)
       random:  constant (default 0.0, i.e. rejection sampling always accepts)"""
 
-    def __init__(self, mvn=None, mvn_offset=None, normal_offset=0.0, choice=None, multinomial=None, random=0.0):
+    def __init__(self, mvn=None, mvn_offset=None, normal_offset=0.0, choice=None, multinomial=None, random=0.0,
+                 poisson=None):
         self.mvn, self.mvn_offset, self.normal_offset = mvn, mvn_offset, normal_offset
         self.choice_f, self.multinomial_f, self.random_v = choice, multinomial, random
+        self.poisson_f = poisson
         self.log = []
         self._saved = {}
 
@@ -141,10 +144,13 @@ class ScriptRNG:
 
     def _random(self, size=None):
         self.log.append(dict(fn="random", size=size))
-        return self.random_v if size is None else np.full(size, self.random_v)
+        v = self.random_v(len(self.calls("random")) - 1) if callable(self.random_v) else self.random_v
+        return v if size is None else np.full(size, v)
 
     def _poisson(self, lam=1.0, size=None):
-        self.log.append(dict(fn="poisson", lam=lam, size=size))
+        self.log.append(dict(fn="poisson", lam=copy.deepcopy(lam), size=size))
+        if self.poisson_f is not None:
+            return np.asarray(self.poisson_f(lam, size))
         return np.zeros(size, dtype=int) if size is not None else 0
 
     def __enter__(self):
@@ -200,7 +206,24 @@ def ref_condition(ref, m, kind, outcome=None, phi=0.0):
     out.mu = np.zeros(2 * n)
     out.V[np.ix_(A, A)] = VA2
     out.mu[A] = muA2
+    if hasattr(ref, "active"):
+        out.active = list(ref.active)
     return out
+
+
+def fock_homodyne_pdf(rho1, phi, qmax, nbins):
+    """independent Born pdf of x_phi (hbar = 2 units, vacuum variance 1) of a single-mode density matrix on the grid
+    linspace(-qmax, qmax, nbins), normalised to sum 1.  psi_n(x) = (2 pi)^(-1/4) (2^n n!)^(-1/2) H_n(x / sqrt 2) e^(-x^2/4);
+    x_phi = e^{i phi n} x e^{-i phi n}, i.e. rho is read in the rotated frame rho'_{nm} = e^{-i phi (n - m)} rho_{nm}."""
+    from scipy.special import eval_hermite, gammaln
+    D = rho1.shape[0]
+    x = np.linspace(-qmax, qmax, nbins)
+    psi = np.array([np.exp(-0.5 * (n * math.log(2.0) + gammaln(n + 1)) - 0.25 * math.log(2 * math.pi)) *
+                    eval_hermite(n, x / math.sqrt(2.0)) * np.exp(-x * x / 4) for n in range(D)])
+    ph = np.exp(-1j * phi * np.arange(D))
+    rr = rho1 * np.outer(ph, ph.conj())
+    pdf = np.real(np.einsum("nm,nk,mk->k", rr, psi, psi))
+    return x, pdf / np.sum(pdf)
 
 
 def ref_marginal(ref, modes):
